@@ -38,7 +38,11 @@ class UnixTransport(BaseTransport, scheme="unix"):
         if self.is_closed:
             return
         self.writer.close()
-        await self.writer.wait_closed()
+        try:
+            await self.writer.wait_closed()
+        except ConnectionError as e:
+            # The connection was already lost (e.g. reset by the peer); there is nothing left to close.
+            logger.debug(f"Exception while waiting for the writer to close: {e!r}")
 
     async def write(
         self,
